@@ -23,6 +23,7 @@ selr = z3.Function('selr', V, I, R)
 seli = z3.Function('seli', V, I, I)
 selb = z3.Function('selb', V, I, B)
 alen = z3.Function('alen', V, I)
+DOT = z3.Function('DOT', V, V, R)
 _cnt = itertools.count()
 
 
@@ -318,7 +319,12 @@ class Interp:
         if isinstance(e.op, ast.USub):
             if isinstance(v, SInt): return [(st, SInt(-v.t))]
             if isinstance(v, (SReal, SBool)): return [(st, SReal(-to_real(v)))]
-            if isinstance(v, (SArr, SOpaque)): return [(st, self.pure_array(st, 'neg', [v]))]
+            if isinstance(v, SArr):
+                r = self.pure_array(st, 'neg', [v], op='USub')
+                st.events[-1]['op'] = 'USub'
+                st.events[-1]['operands'] = [(v.loc, st.ver(v))]
+                return [(st, r)]
+            if isinstance(v, SOpaque): return [(st, self.pure_array(st, 'neg', [v]))]
         if isinstance(e.op, ast.Invert) and isinstance(v, SArr):
             loc = st.newloc('notmask', st.vlen(v))
             nv, ov, lo = st.heap[loc], st.ver(v), st.lo(v)
@@ -326,14 +332,23 @@ class Interp:
             return [(st, SArr(loc, kind='b'))]
         raise Unsupported(f'unary {ast.dump(e.op)} on {type(v).__name__}')
 
-    def pure_array(self, st, why, args):
-        """result of array arithmetic: a fresh array (no aliasing with the operands)"""
+    def pure_array(self, st, why, args, op=None):
+        """result of array arithmetic: a new array (no aliasing with the operands) whose contents are a FUNCTION of the operand
+        contents: when every operand is a whole array or a scalar term, the version is an uninterpreted function of the operand
+        versions (the same expression on the same versions denotes the same array)"""
         n = None
         for a in args:
             if isinstance(a, SArr):
                 n = st.vlen(a)
                 break
         loc = st.newloc(why, n)
+        if op is not None and all((isinstance(a, SArr) and a.lo is None and a.hi is None) or isinstance(a, (SReal, SInt)) for a in args) \
+                and any(isinstance(a, SArr) for a in args):
+            sig = tuple('A' if isinstance(a, SArr) else 'S' for a in args)
+            f = z3.Function(f'PURE_{op}_{"".join(sig)}', *([V if c == 'A' else R for c in sig] + [V]))
+            st.heap[loc] = f(*[st.ver(a) if isinstance(a, SArr) else to_real(a) for a in args])
+            if n is not None:
+                st.pc.append(alen(st.heap[loc]) == n)
         st.events.append(dict(kind='pure', why=why, loc=loc,
                               args=[(a.loc, st.ver(a)) for a in args if isinstance(a, SArr)]))
         nd = 2 if any(isinstance(a, SObj) or (isinstance(a, SArr) and a.ndim == 2) for a in args) else 1
@@ -353,6 +368,7 @@ class Interp:
         elif isinstance(op, ast.Mod): r = x % y
         elif isinstance(op, ast.FloorDiv) and bothint: r = x / y
         elif isinstance(op, ast.Pow):
+            y = z3.simplify(y)
             if z3.is_int_value(y) or z3.is_rational_value(y):
                 r = x ** y
             else:
@@ -370,10 +386,15 @@ class Interp:
                 return [(st, r)]
         if isinstance(a, (SArr, SObj, SOpaque)) or isinstance(b, (SArr, SObj, SOpaque)):
             if isinstance(e.op, ast.MatMult) and all(isinstance(x, SArr) and x.ndim == 1 for x in (a, b)):
+                if all(x.lo is None and x.hi is None for x in (a, b)):
+                    return [(st, SReal(DOT(st.ver(a), st.ver(b))))]
                 return [(st, SReal(fresh(R, 'dot')))]
-            r = self.pure_array(st, 'expr', [a, b])
+            r = self.pure_array(st, 'expr', [a, b], op=type(e.op).__name__)
+            st.events[-1]['op'] = type(e.op).__name__
+            st.events[-1]['operands'] = [(x.loc, st.ver(x)) if isinstance(x, SArr) else None for x in (a, b)]
             if isinstance(e.op, ast.MatMult):
-                r.ndim = 1
+                one_d = any(isinstance(x, SArr) and x.ndim == 1 for x in (a, b))
+                r.ndim = 1 if one_d else 2
             return [(st, r)]
         return [(st, self.arith(e.op, a, b))]
 
